@@ -393,7 +393,8 @@ class CompilerPassGenerateCode(CompilerPass):
             # (a local variable of a function may have the same name as an imported module)
             node._ndata.result = self.data.modules[name]
             return
-        if node._ndata.result:
+        if node._ndata.result is not None:
+            # (a propagated constant may be 0)
             return node._ndata.result
         if name in symbols.__dict__:
             node._ndata.result = symbols.__dict__[name]
